@@ -158,6 +158,8 @@ def resolve(w: World, raw, pf: Profile) -> Optional[dict]:
         m.h_id = rid
         op = {"op": "connect", "c": m.idx, "ver": ver, "id": rid, "logger": logger, "daemon": daemon,
               "multi": multi, "name": name, "pid": 1000 + m.idx}
+        if ver != "v1" and e % 11 == 6:
+            op["hdm"], op["hdh"] = [(201, 0), (0, 6), (-1, -1), (32767, 32767)][(e // 11) % 4]
         if ver != "v1" and name == "" and e % 7 == 3:
             op["short"] = 1
         if ver != "v1" and e % 6 == 5:
@@ -182,6 +184,8 @@ def resolve(w: World, raw, pf: Profile) -> Optional[dict]:
             kind = ["SUBSCRIBE", "UNSUBSCRIBE", "PAUSE", "RESUME"][[0, 0, 0, 1, 2, 3, 0, 1][b % 8]]
             t = _pick_type(pf, c, with_all=True)
             op = {"op": "sub", "c": m.idx, "kind": kind, "type": t}
+            if e % 9 == 4:
+                op["hdm"], op["hdh"] = [(201, 0), (-1, 0), (0, 6), (0, 32767), (32767, 32767), (7, 3)][(e // 9) % 6]
             if d % 5 == 0:
                 op["seg"] = [1, w.sim.hsize - 1, w.sim.hsize, w.sim.hsize + 2][(d // 5) % 4]
             return op
